@@ -170,8 +170,9 @@ def run_case(case, seed):
             continue
         if min(micro_dims) < nev:
             continue
-        for sig_name, sigma in (('above', lmax + 0.5), ('interior', float(evals[len(evals) // 2] + 0.1))):
-            if solver == 'eigh' and sig_name == 'interior':
+        near0 = float(evals[int(np.argmin(np.abs(evals)))])
+        for sig_name, sigma in (('above', lmax + 0.5), ('interior', float(evals[len(evals) // 2] + 0.1)), ('zero', 0), ('zero', 0.0)):
+            if solver == 'eigh' and sig_name != 'above':
                 continue
             prevd = None
             for reps in (1, 2, 3):
@@ -189,6 +190,15 @@ def run_case(case, seed):
                         if prevd is not None:
                             r.le(key + ':target-distance-monotone', dist, prevd, 1e-9 * (1 + abs(sigma)), 'reps %d sigma %s' % (reps, sig_name))
                         prevd = dist
+                        if (ismax or d == 1) and sig_name == 'zero':
+                            # sigma exactly zero is a target like any other. With maximal ranks one micro problem of the sweep is the
+                            # full pencil, so from then on the selected Ritz value is at least as close to the target as the
+                            # eigenvalue nearest to it (a later, smaller frame may offer an even closer spurious Ritz value, which
+                            # is the usual behaviour of Rayleigh-Ritz for interior targets); for order 1 it is that eigenvalue
+                            r.le(key + ':sigma-zero:not-farther-than-nearest-eigenvalue', abs(float(np.real(evl[0])) - 0.0), abs(near0), 1e-7 * (1 + abs(near0)),
+                                 'sigma=%r: lambda %r, eigenvalue nearest to zero %r' % (sigma, evl[0], near0))
+                            if d == 1:
+                                r.true(key + ':sigma-zero:exact', abs(float(np.real(evl[0])) - near0) <= 1e-7 * (1 + abs(near0)), 'lambda %r vs %r' % (evl[0], near0))
                         if (ismax or d == 1) and sig_name == 'above':
                             r.true(key + ':exact-at-max-rank', abs(float(np.real(evl[0])) - lmax) <= 1e-8 * (1 + abs(lmax)) and
                                    overlap(vec(xl[0]), vdom) >= 1 - 1e-8, 'lambda %r vs %r, overlap %r' % (evl[0], lmax, overlap(vec(xl[0]), vdom)))
